@@ -289,6 +289,52 @@ def isHexagonal (vects : M3 K) (tol : K) : Bool :=
 
 end
 
+/-! ### the public entry point `free_surface_basis(hkl, box, cutboxvector, maxindex, return_hexagonal, ...,
+conventional_setting)`: form of `hkl`, default of `return_hexagonal`, refusals, then the routine -/
+
+/-- free_surface_basis.py:89-103: `len` indices were given, `hex = box.ishexagonal()`, `rh = return_hexagonal`.
+    Result: (Miller-Bravais output?, was the plane converted with `plane4to3`?); `value` = ValueError
+    (4 indices with a non-hexagonal box, Miller-Bravais output asked for a non-hexagonal box, any other length). -/
+def hklForm (len : Nat) (hex : Bool) (rh : Option Bool) : Except String (Bool × Bool) :=
+  if len = 4 then (if hex then .ok (rh.getD true, true) else .error "value")
+  else if len = 3 then
+    (match rh with
+     | some true => if hex then .ok (true, false) else .error "value"
+     | _ => .ok (false, false))
+  else .error "value"
+
+/-- the three-index plane the routine works with (`plane4to3` refuses `h + k + i ≠ 0`). -/
+def planeOf (idx : List Int) (conv : Bool) : Except String IV :=
+  match idx, conv with
+  | [h, k, i, l], true => match plane4to3 h k i l with
+    | some v => .ok v
+    | none => .error "value"
+  | [h, k, l], false => .ok ⟨h, k, l⟩
+  | _, _ => .error "value"
+
+section
+variable {K : Type} [Add K] [Sub K] [Mul K] [Zero K] [IntCast K] [LT K] [DecidableLT K] [DecidableEq K]
+
+/-- the whole call: form of the plane, centring matrix of `conventional_setting` (`"p"` when not given; an unknown
+    key is a ValueError of `miller.vector_conventional_to_primitive`), the routine, the row order.
+    Result: the integer rows, whether they are reported in Miller-Bravais form (`vector3to4` of each row), the normal. -/
+def fsbEntry (vects : M3 K) (idx : List Int) (hex : Bool) (rh : Option Bool) (setting : String) (cut : Cut)
+    (nOpt : Option Int) : Except String (M3 Int × Bool × V3 K) :=
+  match hklForm idx.length hex rh with
+  | .error e => .error e
+  | .ok (rh', conv) =>
+    match planeOf idx conv with
+    | .error e => .error e
+    | .ok hkl =>
+      match c2p setting with
+      | none => .error "value"
+      | some L =>
+        match freeSurfaceBasis vects hkl L cut nOpt with
+        | .error e => .error e
+        | .ok (uv, pn) => .ok (uv, rh', pn)
+
+end
+
 /-! ### FreeSurface: compatibility of the cut vector, layers, shifts -/
 section
 variable {K : Type} [Add K] [Sub K] [Mul K] [Zero K] [DecidableEq K]
@@ -476,6 +522,13 @@ inductive FShiftArg (K : Type) where
   | coeffs (a1 a2 oop : Option K)
   | direct (v : V3 K)
   | both
+
+/-- how `fault()` reads its four optional arguments `a1, a2, outofplane, faultshift` (StackingFault.py:540-553):
+    any coefficient given → coefficients (both kinds → ValueError), else the explicit vector, else nothing. -/
+def FShiftArg.ofOptions {K : Type} (a1 a2 oop : Option K) (fs : Option (V3 K)) : FShiftArg K :=
+  if a1.isSome || a2.isSome || oop.isSome then
+    (match fs with | some _ => FShiftArg.both | Option.none => FShiftArg.coeffs a1 a2 oop)
+  else match fs with | some v => FShiftArg.direct v | Option.none => FShiftArg.none
 
 /-- numpy / Python indexing of a list by a possibly negative integer. -/
 def pyIndex {α : Type} (l : List α) (i : Int) : Option α :=
